@@ -100,6 +100,10 @@ def jobs(tier):
     for qs in itertools.product(range(8), repeat=2):
         js.append({"h": "c14.qf_load_factor", "cfg": {"qs": list(qs)}, "opts": {"witnesses": 1}})
     js.append({"h": "c14.union_count", "cfg": {}, "opts": {"no_witness": True}})
+    from . import c05
+    HARNESS.setdefault("c05.roundtrip", c05.roundtrip)
+    js += [j for j in c05.jobs(tier) if j["cfg"].get("kind") in ("ccuckoo", "cuckoo", "CountMinSketch", "cbf", "exp") and j["cfg"].get("channel") == "bytes"
+           and not j["cfg"].get("zero")]
     for m, k in [(63, 4), (1438, 10)]:
         for which in ("estimate", "rate"):
             js.append({"h": "c14.stats", "cfg": {"m": m, "k": k, "which": which}, "opts": {"cost": 10000, "timeout_ms": 300000, "no_witness": True}})
